@@ -47,8 +47,12 @@ Definition plain : bytes := [1; 2; 3].
 (* a keyring with one key "a" (public "P", private "S") *)
 Definition kr_text : text := serialize_key [97] [80] [83].
 
+(* a flat tree: regular files in the root directory, which is also the current directory *)
+Definition flat_fs (files : list (text * bytes)) : fsys :=
+  {| nodes := map (fun f => ([fst f], NFile (snd f))) files; cwd := [] |}.
+
 Definition ex_world (pw : option bytes) : world := {|
-  fs := [(p_in, plain); (p_out, old_content); (p_kr, kr_text)];
+  fs := flat_fs [(p_in, plain); (p_out, old_content); (p_kr, kr_text)];
   env_password := pw; env_new_password := None; env_keyring := Some p_kr; stdin := [] |}.
 
 (* the world after `password encrypt in -o ct` with password "p" *)
@@ -67,6 +71,6 @@ Definition ex_world_kct : world := {|
 (* key generate: name "bob\n" on stdin *)
 Definition kr_text_q : text := serialize_key [97] [81] [83].     (* key "a" with public "Q" *)
 Definition ex_gen_world : world := {|
-  fs := [(p_kr, kr_text_q)]; env_password := Some [112]; env_new_password := None; env_keyring := None;
+  fs := flat_fs [(p_kr, kr_text_q)]; env_password := Some [112]; env_new_password := None; env_keyring := None;
   stdin := [98; 111; 98; 10] |}.
 Definition ex_gen_opts : gen_opts := {| go_outfile := Some p_kr; go_env_pass := true |}.
